@@ -371,7 +371,13 @@ fn alpn_value(r: &mut Rng, p: Profile) -> Vec<u8> {
     if p == Profile::Clean || r.chance(3, 4) {
         return r.pick(&ALPNS).to_vec();
     }
-    match r.below(7) {
+    match r.below(11) {
+        // first / last characters that are separators of the line protocols (found by a thorough-tier search seed:
+        // a JA4 `…h;_…` split the C08 verdict line): every driver must escape them
+        7 => b"h;".to_vec(),
+        8 => b",b/".to_vec(),
+        9 => b"x |".to_vec(),
+        10 => b"#@ ".to_vec(),
         0 => vec![b'h'],                               // one byte: spec revisions differ
         1 => vec![b'h', 0xff, b'2'],                   // alnum ends, not UTF-8
         2 => "h\u{e9}2".as_bytes().to_vec(),           // valid UTF-8, non-ASCII inside
